@@ -362,6 +362,57 @@ func runC01(c *Ctx) {
 	c.rule("C01-R6", "BND: built-in functions and index expressions of both engines keep run-time integers in range before indexing/slicing/allocating (same decision procedure as C04-R12): a builtin that panics for some argument does not compute its documented result")
 	boundsRule(c, "C01-R6", []string{interpPkg, vmPkg}, 6)
 
+	// ---- R8 function frames are lexical
+	c.rule("C01-R8", "def-use: the environment in which a user-defined function's body runs (the NewChildEnvironment whose result receives the parameter bindings and is handed to executeStatements together with Function.Body) is a child of the definition environment - Interpreter.globalEnv or a closure's captured Env - never of the *Environment parameter of the calling code: with assignment updating a variable found anywhere up the chain, a frame hung below the caller's scope lets `$ k = n` in the callee overwrite the caller's k (recursion destroys its own locals) and lets the callee read whatever its caller has in scope")
+	{
+		n := 0
+		for _, fn := range c.srcFuncs(interpPkg) {
+			// functions that run a Function's body
+			eachInstr(fn, func(_ *ssa.BasicBlock, _ int, ins ssa.Instruction) {
+				call, ok := ins.(*ssa.Call)
+				if !ok || callName(call) != interpPath+".Interpreter.executeStatements" || len(call.Call.Args) < 3 {
+					return
+				}
+				isFnBody := derivesFrom(call.Call.Args[1], func(v ssa.Value) bool {
+					switch y := v.(type) {
+					case *ssa.Field:
+						if nt := namedOf(y.X.Type()); nt != nil && nt.Obj().Name() == "Function" {
+							return nt.Underlying().(*types.Struct).Field(y.Field).Name() == "Body"
+						}
+					case *ssa.UnOp:
+						return loadedFromField(y, "Function", "Body")
+					}
+					return false
+				})
+				if !isFnBody {
+					return
+				}
+				// the frame: NewChildEnvironment call the env argument derives from
+				var frames []*ssa.Call
+				derivesFrom(call.Call.Args[2], func(v ssa.Value) bool {
+					if cl, ok := v.(*ssa.Call); ok && callName(cl) == interpPath+".NewChildEnvironment" {
+						frames = append(frames, cl)
+					}
+					return false
+				})
+				for _, fr := range frames {
+					n++
+					parent := fr.Call.Args[0]
+					fromParam := derivesFrom(parent, func(v ssa.Value) bool {
+						p, ok := v.(*ssa.Parameter)
+						return ok && typeIs(derefType(p.Type()), interpPath, "Environment")
+					})
+					fromDef := derivesFrom(parent, func(v ssa.Value) bool {
+						return loadedFromField(v, "Interpreter", "globalEnv") || loadedFromField(v, "LambdaClosure", "Env")
+					})
+					c.ob("C01-R8", fnKey(fn)+"#function-frame-hangs-below-the-definition-scope-"+itoa(n), fr.Pos(), fromDef && !fromParam, "the frame of a user-defined function is created as a child of the caller's environment (dynamic scoping): `$ k = n` in the callee assigns the caller's k when one is in scope - fact(4) with a local returns 1 - and the callee can read the calling route's locals")
+				}
+			})
+		}
+		c.Sites["C01-R8#function-frames"] = n
+		c.floor("C01-R8", 2)
+	}
+
 	// ---- R7 integers are integers
 	c.rule("C01-R7", "INTCMP: for the ordering (<, <=, >, >=) and the +, -, * arms of the interpreter's binary-operator dispatch, the handler the arm calls (and its same-package callees, two levels) performs that operation on two integer payloads - values taken out of the dynamic operands by type assertion with no numeric conversion on the way: int x int is never routed through float64 (53-bit mantissa), which would change results for integers above 2^53 while == still compares them exactly")
 	c.Sites["C01-R7#operator-arms"] = intOpAudit(c, "C01-R7", interpPkg, "Interpreter.evaluateBinaryOp", modPath+"/pkg/ast", "BinOp",
